@@ -2,7 +2,7 @@
    Partial by nature: the theorems bound a LEDGER of buffer bytes defined from the models'
    own intermediate values (Model/Memory.v); the allocator's real behaviour is measured by the
    harness (counting global allocator) and compared with these constants. *)
-From KV Require Import Lib.Bytes Model.Headers Model.Parser Model.Printer Model.Body Model.Server Model.Memory Proofs.Memory.
+From KV Require Import Lib.Bytes Model.Headers Model.Parser Model.Printer Model.Body Model.Server Model.Memory Proofs.Memory Proofs.MemoryCarry.
 
 (* sending: whatever the reader delivers - any length, any pieces - the printer retains at most
    K_BODY = 8192 + 8192 + 131072 bytes besides the head *)
@@ -46,3 +46,98 @@ Proof. exact head_buffer_bound. Qed.
 
 Example C20_ex_constants : N.of_nat K_BODY = 147456%N /\ BUF_SIZE = 4096%N.
 Proof. vm_compute. split; reflexivity. Qed.
+
+(* ---- the carry (fix F20c): the bytes the request loop keeps between two requests of a connection ----
+   When the body reader is dropped, what it holds beyond the end of the body - the BufReader's buffer and the unread part
+   of the leftover slice, [carry_of] - becomes the first segment the next read_request sees ([after_drop]).  After ANY
+   sequence of read / fill_buf / consume calls and the final drain, on any reader from_request can build (chunked, fixed,
+   empty; any headers, any leftover, any future segments): at most one BufReader buffer plus what arrived with the head *)
+Theorem C20_carry_bound : forall leftover sg h ops fuel,
+  length (carry_of (body_src (drain fuel (fold_left bstep ops (from_request leftover sg h))))) <= 4096 + length leftover.
+Proof. exact carry_bound. Qed.
+Print Assumptions C20_carry_bound.
+(* ... in fact the larger of the two, not their sum: while part of the leftover is unread the BufReader holds bytes of the
+   leftover only *)
+Theorem C20_carry_bound_max : forall leftover sg h ops fuel,
+  length (carry_of (body_src (drain fuel (fold_left bstep ops (from_request leftover sg h))))) <= Nat.max 4096 (length leftover).
+Proof. exact carry_bound_max. Qed.
+Print Assumptions C20_carry_bound_max.
+(* the same for every kind of reader of C20_reader_bound (EOF-delimited too) *)
+Theorem C20_carry_bound_gen : forall leftover st ops b0 fuel,
+  (b0 = new_chunked leftover st \/ (exists n, b0 = new_fixed leftover st n) \/ b0 = new_eof leftover st \/ b0 = new_empty leftover st) ->
+  length (carry_of (body_src (drain fuel (fold_left bstep ops b0)))) <= Nat.max 4096 (length leftover).
+Proof. exact carry_bound_max_gen. Qed.
+Print Assumptions C20_carry_bound_gen.
+
+(* in the request loop: when a head was parsed and can be framed, what handle_one_request leaves for the next request is
+   after_drop of the reader the hook / handler leaves ([conn_reader]: from_request on the bytes behind the head, then the
+   handler's reads), i.e. its carry in front of the segments not yet read; and that carry is at most 4096 + N bytes for a head
+   limit of N, whatever the lengths of the bodies: so is the head buffer the repaired code sizes as max(N, carry) *)
+Theorem C20_carry_is_first_segment : forall b,
+  after_drop b = with_carry (carry_at_drop b) (segs (body_src (drain (body_fuel b) b))).
+Proof. exact after_drop_carry. Qed.
+Theorem C20_carry_bound_conn : forall a N ka sg buf r sg',
+  read_request (S (length sg) + length (concat sg)) N [] sg = (RParsed buf r, sg') ->
+  te_present (q_hdrs r) && negb (te_final_chunked (q_hdrs r)) = false ->
+  o_rest (handle_one_request a N ka sg) = after_drop (conn_reader a r buf sg') /\
+  length (carry_at_drop (conn_reader a r buf sg')) <= 4096 + N.
+Proof. exact carry_bound_conn. Qed.
+Print Assumptions C20_carry_bound_conn.
+Theorem C20_carry_bound_conn_max : forall a N ka sg buf r sg',
+  read_request (S (length sg) + length (concat sg)) N [] sg = (RParsed buf r, sg') ->
+  te_present (q_hdrs r) && negb (te_final_chunked (q_hdrs r)) = false ->
+  o_rest (handle_one_request a N ka sg) = after_drop (conn_reader a r buf sg') /\
+  length (carry_at_drop (conn_reader a r buf sg')) <= Nat.max 4096 N.
+Proof. exact carry_bound_conn_max. Qed.
+Print Assumptions C20_carry_bound_conn_max.
+(* a parsed head that cannot be framed builds no reader and carries nothing: the connection is closed *)
+Theorem C20_carry_none_unframed : forall a N ka sg buf r sg',
+  read_request (S (length sg) + length (concat sg)) N [] sg = (RParsed buf r, sg') ->
+  te_present (q_hdrs r) && negb (te_final_chunked (q_hdrs r)) = true ->
+  o_rest (handle_one_request a N ka sg) = sg' /\ o_keep (handle_one_request a N ka sg) = false.
+Proof. exact carry_none_unframed. Qed.
+
+(* ---- examples ---- *)
+Definition all_app : app :=
+  {| behaviour_of := fun _ => BAll; hook_of := fun _ => HProceed; describe := fun _ b => b |}.
+Definition hold_app : app :=
+  {| behaviour_of := fun _ => BHold; hook_of := fun _ => HProceed; describe := fun _ b => b |}.
+Definition crlf : bytes := [x0d; x0a].
+Definition next_req : bytes := bs "GET /next HTTP/1.1" ++ crlf ++ crlf.
+Definition chunked_head : bytes := bs "POST /u HTTP/1.1" ++ crlf ++ bs "Transfer-Encoding: chunked" ++ crlf ++ crlf.
+Definition chunked_body : bytes := bs "5" ++ crlf ++ bs "hello" ++ crlf ++ bs "0" ++ crlf ++ crlf.
+(* the carry of the request at the head of [sg] *)
+Definition carry_after (a : app) (N : nat) (sg : list bytes) : option bytes :=
+  match read_request (S (length sg) + length (concat sg)) N [] sg with
+  | (RParsed buf r, sg') => Some (carry_at_drop (conn_reader a r buf sg'))
+  | _ => None
+  end.
+
+(* a chunked body followed by a pipelined request in the same segment: the carry is that request, and it is all
+   that is left of the stream.  Head, body and next request in ONE segment (the carry comes back from the leftover slice
+   through the BufReader), and the head alone in a first segment (the carry is the BufReader's read-ahead); the handler
+   reads the body to its end, or does not read at all (the drain does) *)
+Example C20_ex_carry_pipelined :
+  carry_after all_app 4096 [chunked_head ++ chunked_body ++ next_req] = Some next_req /\
+  o_rest (handle_one_request all_app 4096 true [chunked_head ++ chunked_body ++ next_req]) = [next_req] /\
+  carry_after all_app 4096 [chunked_head; chunked_body ++ next_req] = Some next_req /\
+  o_rest (handle_one_request all_app 4096 true [chunked_head; chunked_body ++ next_req]) = [next_req] /\
+  carry_after hold_app 4096 [chunked_head; chunked_body ++ next_req] = Some next_req /\
+  o_rest (handle_one_request hold_app 4096 true [chunked_head; chunked_body ++ next_req]) = [next_req] /\
+  (* nothing behind the body: nothing is carried, no empty segment is inserted *)
+  carry_after all_app 4096 [chunked_head; chunked_body] = Some [] /\
+  o_rest (handle_one_request all_app 4096 true [chunked_head; chunked_body]) = [].
+Proof. vm_compute. repeat split. Qed.
+
+(* the BufReader's capacity alone does NOT bound the carry: a head limit above 4096 lets more than 4096 bytes arrive
+   with the head, and a request without a body carries all of them (so max(4096, N) is the right constant) *)
+Definition long_tail : bytes := repeat x0a (N.to_nat 5000).
+Example C20_carry_buf_only_refuted :
+  ~ (forall a N sg c, carry_after a N sg = Some c -> length c <= 4096).
+Proof.
+  intros H. specialize (H all_app (N.to_nat 8192) [next_req ++ long_tail] long_tail).
+  assert (carry_after all_app (N.to_nat 8192) [next_req ++ long_tail] = Some long_tail) as E by (vm_compute; reflexivity).
+  specialize (H E). apply Nat.leb_le in H. vm_compute in H. discriminate H.
+Qed.
+Print Assumptions C20_ex_carry_pipelined.
+Print Assumptions C20_carry_buf_only_refuted.
